@@ -39,8 +39,8 @@ theorem hasTys_length {env : Env} {η : Hp} : ∀ {vs : List Val} {tys : List Ty
 theorem goCallee_plain {name : String} {fty : Ty} {args : List Imm} {ty : Ty} (hsp : specialCallees.contains name = false)
     (hrn : rn name = name) : goCallee (.var name fty) args ty = [vn name] := by
   simp only [specialCallees, List.contains_cons, List.contains_nil, Bool.or_false, Bool.or_eq_false_iff, beq_eq_false_iff_ne] at hsp
-  obtain ⟨_, _, h3, h4, h5, _⟩ := hsp
-  simp [goCallee, hrn, h3, h4, h5]
+  obtain ⟨h1, h2, h3, h4, h5, _⟩ := hsp
+  simp [goCallee, hrn, h1, h2, h3, h4, h5]
 
 theorem compileCall_frag {env : Env} {file : AFile} {G : List String} {Γ : Ctx} {name : String} {fty : Ty}
     {args : List Imm} {ty : Ty} (h : callOK env file G Γ (.var name fty) args ty = true) :
@@ -256,6 +256,203 @@ theorem refcall_sim {env : Env} {file : AFile} {G : List String} {P : Prog} {F :
           | _ => rw [hrty] at hcase; simp at hcase
       · rw [if_neg h3] at hcase; cases hcase
 
+/-! ### the array builtins -/
+
+theorem Imm.ty_var (x : String) (t : Ty) : (Imm.var x t).ty = t := rfl
+
+theorem argsRel_three {env : Env} {η : Hp} {vs : List Val} {gvs : List GVal} {t1 t2 t3 : Ty} (h : ArgsRel env η vs gvs [t1, t2, t3]) :
+    ∃ v1 v2 v3 g1 g2 g3, vs = [v1, v2, v3] ∧ gvs = [g1, g2, g3] ∧ toGV env η v1 = some g1 ∧ HasTy env η v1 t1 ∧
+      toGV env η v2 = some g2 ∧ HasTy env η v2 t2 ∧ toGV env η v3 = some g3 ∧ HasTy env η v3 t3 := by
+  rcases vs with _ | ⟨v1, _ | ⟨v2, _ | ⟨v3, _ | ⟨v4, vs⟩⟩⟩⟩ <;> rcases gvs with _ | ⟨g1, _ | ⟨g2, _ | ⟨g3, _ | ⟨g4, gs⟩⟩⟩⟩ <;>
+    simp [ArgsRel] at h
+  exact ⟨v1, v2, v3, g1, g2, g3, rfl, rfl, h.1, h.2.1, h.2.2.1, h.2.2.2.1, h.2.2.2.2.1, h.2.2.2.2.2⟩
+
+/-- a typed array value and its Go image -/
+theorem arrayV_inv {env : Env} {η : Hp} {v : Val} {g : GVal} {len : Nat} {e : Ty} (ht : HasTy env η v (.array len e))
+    (hg : toGV env η v = some g) :
+    ∃ vs gs, v = .array vs ∧ g = .array gs ∧ 1 ≤ len ∧ HasTys env η vs (List.replicate len e) ∧ toGVs env η vs = some gs := by
+  cases v <;> simp only [HasTy] at ht <;> try exact ht.elim
+  rename_i vs
+  simp only [toGV] at hg
+  cases hgs : toGVs env η vs with
+  | none => rw [hgs] at hg; simp at hg
+  | some gs => rw [hgs] at hg; simp at hg; exact ⟨vs, gs, rfl, hg.symm, ht.1, ht.2, hgs⟩
+
+theorem intV_inv {env : Env} {η : Hp} {v : Val} {g : GVal} {t : Ty} (hit : intTy t = true) (ht : HasTy env η v t)
+    (hg : toGV env η v = some g) : ∃ b s x, v = .int b s x ∧ g = .int b s x := by
+  cases t <;> simp [intTy] at hit
+  obtain ⟨x, rfl⟩ := hasTy_int ht
+  simp [toGV] at hg
+  exact ⟨_, _, x, rfl, hg.symm⟩
+
+theorem arrcall_name {env : Env} {file : AFile} {Γ : Ctx} {name : String} {fty : Ty} {args : List Imm} {ty : Ty}
+    (hfrag : arrCallOK env file Γ (.var name fty) args ty = true) : rn name = name ∧ (name = "array_get" ∨ name = "array_set") := by
+  simp only [arrCallOK, Bool.and_eq_true, beq_iff_eq] at hfrag
+  obtain ⟨⟨_, hrn⟩, hcase⟩ := hfrag
+  refine ⟨hrn, ?_⟩
+  cases args with
+  | nil => cases hcase
+  | cons a rest =>
+    cases rest with
+    | nil => cases hcase
+    | cons i rest =>
+      simp only at hcase
+      cases haty : a.ty with
+      | array len e =>
+        rw [haty] at hcase; simp only [Bool.and_eq_true] at hcase
+        obtain ⟨_, hif⟩ := hcase
+        by_cases h1 : name = "array_get"
+        · exact Or.inl h1
+        · rw [if_neg h1] at hif
+          by_cases h2 : name = "array_set"
+          · exact Or.inr h2
+          · rw [if_neg h2] at hif; cases hif
+      | _ => rw [haty] at hcase; cases hcase
+
+/-- the shape of a compiled call of an array builtin -/
+theorem arrcall_shape {env : Env} {file : AFile} {Γ : Ctx} {name : String} {fty : Ty} {args : List Imm} {ty : Ty}
+    (hfrag : arrCallOK env file Γ (.var name fty) args ty = true) :
+    ∃ helper tys, compileCExpr env (.call (.var name fty) args ty) = .call (goTy ty) (.var helper (goTy fty)) (compileImms env args) ∧
+      calleesC (.call (.var name fty) args ty) = [helper] ∧ argsOK env Γ args tys = true := by
+  simp only [arrCallOK, Bool.and_eq_true, beq_iff_eq] at hfrag
+  obtain ⟨⟨hloc, hrn⟩, hcase⟩ := hfrag
+  cases args with
+  | nil => cases hcase
+  | cons a rest =>
+    cases rest with
+    | nil => cases hcase
+    | cons i rest =>
+      simp only at hcase
+      cases haty : a.ty with
+      | array len e =>
+        rw [haty] at hcase; simp only [Bool.and_eq_true] at hcase
+        obtain ⟨_, hif⟩ := hcase
+        by_cases h1 : name = "array_get"
+        · subst h1
+          rw [if_pos rfl] at hif; simp only [Bool.and_eq_true] at hif
+          exact ⟨helperFnName "array_get" (.array len e), _,
+            by simp [compileCExpr, compileCall, callee, hrn, haty, Imm.ty_var], by simp [calleesC, goCallee, hrn, haty], hif.1⟩
+        · rw [if_neg h1] at hif
+          by_cases h2 : name = "array_set"
+          · subst h2
+            rw [if_pos rfl] at hif; simp only [Bool.and_eq_true] at hif
+            exact ⟨helperFnName "array_set" (.array len e), _,
+              by simp [compileCExpr, compileCall, callee, hrn, haty, Imm.ty_var], by simp [calleesC, goCallee, hrn, haty], hif.1⟩
+          · rw [if_neg h2] at hif; cases hif
+      | _ => rw [haty] at hcase; cases hcase
+
+theorem arrcall_sim {env : Env} {file : AFile} {G : List String} {P : Prog} {F : GFile} (hl : Link env file G P F) (n : Nat)
+    (η : Hp) (Γ : Ctx) (ρ : Sem.Env) (w : World) (gρ : GEnv) (gw : GWorld) (Bad : List String)
+    (name : String) (fty : Ty) (args : List Imm) (ty : Ty)
+    (hfrag : arrCallOK env file Γ (.var name fty) args ty = true) (hrel : EnvRel env η Γ ρ gρ) (hw : WRel env η w gw)
+    (hgood : ∀ y, y ∈ keys gρ → ¬ y ∈ Bad) (hcal : ∀ x, x ∈ calleesC (.call (.var name fty) args ty) → x ∈ Bad) :
+    ConclV env η F (compileCExpr env (.call (.var name fty) args ty)) gρ gw ty false true w
+      (Sem.eval (n + 1) P ρ w (CExpr.call (.var name fty) args ty).toExpr) := by
+  obtain ⟨helper, tys0, hshape, hcs, _⟩ := arrcall_shape hfrag
+  simp only [arrCallOK, Bool.and_eq_true, beq_iff_eq] at hfrag
+  obtain ⟨⟨hloc, hrn⟩, hcase⟩ := hfrag
+  have hnone : lookupTy Γ name = none := by
+    cases hx : lookupTy Γ name with
+    | none => rfl
+    | some p => rw [hx] at hloc; simp at hloc
+  have hsrc : Sem.lookupEnv ρ name = none := hrel.2 name hnone
+  have hbad : helper ∈ Bad := hcal _ (by rw [hcs]; exact List.mem_singleton.mpr rfl)
+  have hgo : lookupG gρ helper = none := lookup_none_of_not_key (fun hk => hgood _ hk hbad)
+  rw [hshape]
+  simp only [CExpr.toExpr, Imm.toExpr]
+  cases n with
+  | zero => rw [Sem.eval]; rw [Sem.eval]; trivial
+  | succ n =>
+  rw [sem_call_fn hsrc]
+  cases args with
+  | nil => cases hcase
+  | cons a rest =>
+    cases rest with
+    | nil => cases hcase
+    | cons i rest =>
+      simp only at hcase
+      cases haty : a.ty with
+      | array len e =>
+        rw [haty] at hcase; simp only [Bool.and_eq_true] at hcase
+        obtain ⟨⟨hint, hat⟩, hif⟩ := hcase
+        have hhelper : ∀ nm, name = nm → helper = helperFnName nm (.array len e) := by
+          intro nm hnm; subst hnm
+          have : calleesC (.call (.var name fty) (a :: i :: rest) ty) = [helperFnName name (.array len e)] := by
+            simp only [calleesC, goCallee, hrn, List.head?_cons, Option.map_some, Option.getD_some, haty]
+            by_cases h1 : name = "array_get"
+            · simp [h1]
+            · by_cases h2 : name = "array_set"
+              · simp [h2]
+              · rw [if_neg h1, if_neg h2] at hif; cases hif
+          rw [this] at hcs; injection hcs with hcs; exact hcs.symm
+        by_cases h1 : name = "array_get"
+        · have hh := hhelper _ h1
+          subst h1; subst hh
+          rw [if_pos rfl] at hif; simp only [Bool.and_eq_true] at hif
+          obtain ⟨hargs, hty⟩ := hif
+          have hty' := scalarEq_eq hty; subst hty'
+          obtain ⟨vs, gvs, hrelA, hgA, hsA⟩ := imms_both P hl.ty hrel hargs
+          obtain ⟨va, vi, ga, gi, rfl, rfl, hga, hta, hgi, hti⟩ := argsRel_two hrelA
+          obtain ⟨xs, gs, rfl, rfl, hlen1, hxs, hgs⟩ := arrayV_inv hta hga
+          obtain ⟨b, s, x, rfl, rfl⟩ := intV_inv hint hti hgi
+          rcases hsA (n + 1) w with h2 | h2
+          · rw [h2]; trivial
+          · rw [h2]; simp only
+            rw [Sem.apply]; simp only [hl.arrSrc "array_get" (by simp [arrNames])]
+            by_cases hneg : x < 0
+            · have hb : Sem.builtin "array_get" [.array xs, .int b s x] w = some (.fail (.panic "index out of range") w) := by
+                simp [Sem.builtin, hneg]
+              simp only [hb]
+              exact ⟨η, η.le_refl, gw, ev_call (ev_var_none hgo) (hgA gw) (arr_get_call_oob (hl.arrGo len ty hat) gw gs b s x (Or.inl hneg)),
+                hw, rfl⟩
+            · rcases toGVs_get x.toNat hgs with ⟨hn1, hn2⟩ | ⟨v, g, hv1, hv2, hvg⟩
+              · have hb : Sem.builtin "array_get" [.array xs, .int b s x] w = some (.fail (.panic "index out of range") w) := by
+                  simp [Sem.builtin, hneg, hn1]
+                simp only [hb]
+                exact ⟨η, η.le_refl, gw, ev_call (ev_var_none hgo) (hgA gw) (arr_get_call_oob (hl.arrGo len ty hat) gw gs b s x (Or.inr hn2)),
+                  hw, rfl⟩
+              · have hb : Sem.builtin "array_get" [.array xs, .int b s x] w = some (.ok v w) := by
+                  simp [Sem.builtin, hneg, hv1]
+                simp only [hb]
+                exact ⟨η, η.le_refl, g, gw, ev_call (ev_var_none hgo) (hgA gw) (arr_get_call (hl.arrGo len ty hat) gw gs b s x g hneg hv2),
+                  hvg, hasTys_replicate_get x.toNat hxs hv1, hw, fun h => by cases h⟩
+        · rw [if_neg h1] at hif
+          by_cases h2 : name = "array_set"
+          · have hh := hhelper _ h2
+            subst h2; subst hh
+            rw [if_pos rfl] at hif; simp only [Bool.and_eq_true] at hif
+            obtain ⟨hargs, hty⟩ := hif
+            have hty' := scalarEq_eq hty; subst hty'
+            obtain ⟨vs, gvs, hrelA, hgA, hsA⟩ := imms_both P hl.ty hrel hargs
+            obtain ⟨va, vi, vv, ga, gi, gv, rfl, rfl, hga, hta, hgi, hti, hgv, htv⟩ := argsRel_three hrelA
+            obtain ⟨xs, gs, rfl, rfl, hlen1, hxs, hgs⟩ := arrayV_inv hta hga
+            obtain ⟨b, s, x, rfl, rfl⟩ := intV_inv hint hti hgi
+            have hlenG : gs.length = xs.length := toGVs_length hgs
+            rcases hsA (n + 1) w with h3 | h3
+            · rw [h3]; trivial
+            · rw [h3]; simp only
+              rw [Sem.apply]; simp only [hl.arrSrc "array_set" (by simp [arrNames])]
+              by_cases hoob : x < 0 ∨ x.toNat ≥ xs.length
+              · have hb : Sem.builtin "array_set" [.array xs, .int b s x, vv] w = some (.fail (.panic "index out of range") w) := by
+                  have : (decide (x < 0) || decide (x.toNat ≥ xs.length)) = true := by
+                    rcases hoob with h | h <;> simp [h]
+                  simp [Sem.builtin, this]
+                simp only [hb]
+                exact ⟨η, η.le_refl, gw, ev_call (ev_var_none hgo) (hgA gw)
+                  (arr_set_call_oob (hl.arrGo len e hat) gw gs b s x gv (by rw [hlenG]; exact hoob)), hw, rfl⟩
+              · have hb : Sem.builtin "array_set" [.array xs, .int b s x, vv] w = some (.ok (.array (xs.set x.toNat vv)) w) := by
+                  have : (decide (x < 0) || decide (x.toNat ≥ xs.length)) = false := by
+                    simp only [not_or] at hoob
+                    simp [hoob.1, hoob.2]
+                  simp [Sem.builtin, this]
+                simp only [hb]
+                refine ⟨η, η.le_refl, .array (gs.set x.toNat gv), gw, ev_call (ev_var_none hgo) (hgA gw)
+                  (arr_set_call (hl.arrGo len e hat) gw gs b s x gv (by rw [hlenG]; exact hoob)), ?_, ?_, hw, fun h => by cases h⟩
+                · simp [toGV, toGVs_set x.toNat hgs hgv]
+                · simp only [HasTy]; exact ⟨hlen1, hasTys_replicate_set x.toNat hxs htv⟩
+          · rw [if_neg h2] at hif; cases hif
+      | _ => rw [haty] at hcase; cases hcase
+
 /-- the shape of a compiled call of a reference builtin: an ordinary Go call of the helper of the type -/
 theorem refcall_shape {env : Env} {file : AFile} {Γ : Ctx} {name : String} {fty : Ty} {args : List Imm} {ty : Ty}
     (hfrag : refCallOK env file Γ (.var name fty) args ty = true) :
@@ -419,8 +616,9 @@ theorem stepV {env : Env} {file : AFile} {G : List String} {P : Prog} {F : GFile
     simp only [fragC, Bool.or_eq_true] at hfrag
     cases f with
     | var name fty =>
-      rcases hfrag with hfrag | hfrag
-      case inr => exact refcall_sim hl n η Γ ρ w gρ gw Bad name fty args ty hfrag hrel hw hgood hcal
+      rcases hfrag with (hfrag | hfrag) | hfrag
+      case inl.inr => exact refcall_sim hl n η Γ ρ w gρ gw Bad name fty args ty hfrag hrel hw hgood hcal
+      case inr => exact arrcall_sim hl n η Γ ρ w gρ gw Bad name fty args ty hfrag hrel hw hgood hcal
       have hshape := compileCall_frag hfrag
       simp only [CExpr.toExpr, compileCExpr, CExpr.annTy, Imm.toExpr, hshape]
       simp only [callOK, Bool.and_eq_true, Bool.not_eq_true', beq_iff_eq] at hfrag
@@ -496,8 +694,8 @@ theorem stepV {env : Env} {file : AFile} {G : List String} {P : Prog} {F : GFile
                   exact ⟨η1, hle1, gw', ev_call (ev_var_none hgo) (hgA gw) hc, h5, rfl⟩
                 | fuel => intro _; trivial
                 | stuck s => intro _; trivial
-    | prim p t => simp [callOK, refCallOK] at hfrag
-    | tag i t => simp [callOK, refCallOK] at hfrag
+    | prim p t => simp [callOK, refCallOK, arrCallOK] at hfrag
+    | tag i t => simp [callOK, refCallOK, arrCallOK] at hfrag
   | ite c t e ty => simp [isCtl] at hctl
   | «while» c b ty => simp [isCtl] at hctl
   | matchE s arms d ty => simp [isCtl] at hctl
@@ -572,7 +770,25 @@ theorem stepV {env : Env} {file : AFile} {G : List String} {P : Prog} {F : GFile
         · simp [toGV, hts, h1, hlen]
         · simp only [HasTy]; exact h2
     | _ => exact absurd hfrag (by simp)
-  | array items ty => simp [fragC] at hfrag
+  | array items ty =>
+    simp only [fragC] at hfrag
+    cases ty with
+    | array len e =>
+      simp only [Bool.and_eq_true] at hfrag
+      obtain ⟨hargs, hval⟩ := hfrag
+      obtain ⟨vs, gvs, hrelA, hgA, hsA⟩ := imms_both P hl.ty hrel hargs
+      obtain ⟨h1, h2, _, _⟩ := toGVs_of_args hrelA
+      have hlen1 : 1 ≤ len := by
+        simp only [valTy, valTyS, Bool.and_eq_true, decide_eq_true_eq] at hval; exact hval.1.1
+      simp only [CExpr.toExpr, compileCExpr, CExpr.annTy, goTy]
+      rw [Sem.eval]
+      rcases hsA n w with h3 | h3
+      · rw [h3]; trivial
+      · rw [h3]; simp only
+        refine ⟨η, η.le_refl, .array gvs, gw, ev_alit_array (hgA gw), ?_, ?_, hw, fun _ => ⟨rfl, rfl⟩⟩
+        · simp [toGV, h1]
+        · simp only [HasTy]; exact ⟨hlen1, h2⟩
+    | _ => exact absurd hfrag (by simp)
   | cget e c idx ty =>
     cases c with
     | enum tn vn' vi =>
